@@ -268,8 +268,14 @@ class AltContext:
   callback that OVERLAPS the observed operation with complete other operations (see other_operations)."""
 
   class _Formats(logging.Handler):
+    overlap = None
+
     def emit(self, record):
       record.getMessage()              # a malformed format / argument pair raises here, in the code that logged
+      if self.overlap is not None:
+        # a handler is the caller's code too: this one starts other complete operations the first time something is logged
+        # (as a handler that reports to a service converting its own payload would) - in the middle of whatever logged
+        self.overlap(0)
 
   def __init__(self, use=1):
     self.use = int(use)
@@ -284,6 +290,8 @@ class AltContext:
     self.logger = logging.getLogger("ttconv")
     self.level = self.logger.level
     self.handler = AltContext._Formats(level=logging.DEBUG)
+    if self.use == 2:
+      self.handler.overlap = overlapping_callback()
     self.logger.addHandler(self.handler)
     self.logger.setLevel(logging.DEBUG)
     self.cw = warnings.catch_warnings()
